@@ -32,7 +32,8 @@ META = {
              ' Also: dataset locations spelled as plain paths / trailing s'
              'lash / file:// / percent-encoded URLs, magic-number voxels a'
              't a chunk origin, half of the subprocess cases with PYTHONOP'
-             'TIMIZE=1.'),
+             'TIMIZE=1.'
+             " Round 12: header slope 1 with an intercept."),
     "trusted_base": ["nibabel (input files)", "vlib/datasets.read_scale"],
     "assumptions": ["RGB inputs and --sharding are outside the all-in-one "
                     "command's options: sharded programs only take part in "
@@ -99,8 +100,9 @@ def cases(draw):
         vs = [1, 1, 1]
     scaling = None
     if draw(st.integers(0, 3)) == 0:
-        scaling = [draw(st.sampled_from([0.5, 2.0])),
-                   draw(st.sampled_from([0.0, 1.0]))]
+        # (slope 1 with an intercept: CT-like files; intercept alone 0)
+        scaling = [draw(st.sampled_from([0.5, 2.0, 1.0, 1.0])),
+                   draw(st.sampled_from([0.0, 1.0, -16.0, 100.0]))]
     mm = draw(st.sampled_from([None, None, None, [0.0, 100.0],
                                [None, 50.0]]))
     if enc == "compressed_segmentation":
